@@ -54,6 +54,8 @@ def tasks(tier):
     for K in (1, 2, 3):
         ts.append(Task('props.wire:run', name='C02/wire.const-dispatch.%d' % K, fname='c02_const_dispatch', kwargs=dict(K=K), timeout=600))
     ts.append(Task('props.wire:run', name='C02/wire.const-1d-two-steps.4', fname='c02_const_1d_two_steps', kwargs=dict(n=4), timeout=600))
+    for K in (2, 3):
+        ts.append(Task('props.wire:run', name='C02/wire.const-%dd-two-steps' % K, fname='c02_const_kd_two_steps', kwargs=dict(K=K), timeout=600))
     for n in (4, 5):
         ts.append(Task('props.wire:run', name='C02/wire.const-1d.%d' % n, fname='c02_const_1d', kwargs=dict(n=n), timeout=600))
     for fz in ((), (1,), (2,)):
